@@ -29,7 +29,7 @@ LEVEL_TEXT = ("Real end-to-end runs over generated frame layouts (spacing 1-5 st
 LEVEL_NOTE = "Tolerance 2e-5 relative (float32 fields accumulate u += dU over up to 5 steps). Trusts the harness's layout oracle and netCDF4."
 RULE = ("case = one layout (frame positions in steps, file partition, start, stop, direction, scalars, packing). Non-trivial: the run passes at least one frame step after the "
         "start (a hand-over happens); distinct by (positions, partition, start, stop, direction).")
-MANDATORY = ["forward", "reversed", "spacing_equals_dt", "irregular_spacing", "one_frame_per_file", "file_entered_in_middle", "start_on_frame", "start_between_frames",
+MANDATORY = ["frame_passed_while_state_empty", "forward", "reversed", "spacing_equals_dt", "irregular_spacing", "one_frame_per_file", "file_entered_in_middle", "start_on_frame", "start_between_frames",
              "scalar_fields", "packed", "handover_steps_observed", "probe_steps", "reads_checked", "first_read_straddles_files", "time_units_hours_or_days", "packed_per_file_parameters"]
 ASSUMPTIONS = ["frames on the model time grid, strictly increasing, covering [start, stop] (as the property quantifies)"]
 TIMEOUT = {"quick": 900, "thorough": 3000}
@@ -159,8 +159,13 @@ def run_case(case: dict[str, Any], wd: Path) -> dict[str, Any]:
     start = str(tadd(t0, S * dt))
     stop = str(tadd(t0, E * dt))
     st_i = {name: "float" for name in scal_vals}
+    # a third of the cases: nobody is released before step k, the state is empty while the forcing has to keep stepping through its frames
+    first_rel = 0
+    if case["salt"] % 3 == 1 and abs(E - S) >= 3:
+        first_rel = 1 + case["salt"] % (abs(E - S) - 1)
+    trel = str(tadd(start, sgn * first_rel * dt))
     run = dict(start=start, stop=stop, dt=dt, reversed=rev, advection="EF", extra_forcing=list(scal_vals),
-               release=dict(columns=["release_time", "X", "Y", "Z"], rows=[[start, 4.3, 4.6, 5.0], [start, 5.5, 3.5, 20.0]], header=True),
+               release=dict(columns=["release_time", "X", "Y", "Z"], rows=[[trel, 4.3, 4.6, 5.0], [trel, 5.5, 3.5, 20.0]], header=True),
                state=dict(instance_variables=st_i, default_values={k: 0.0 for k in st_i}),
                ibm=dict(module=PROBE, fractions=FRACS),
                output=dict(period=dt))
@@ -205,6 +210,7 @@ def run_case(case: dict[str, Any], wd: Path) -> dict[str, Any]:
     sit["packed"] = int(case["packed"])
     sit["packed_per_file_parameters"] = int("pack_per_file" in w)
     sit["time_units_hours_or_days"] = int("time_units" in w)
+    sit["frame_passed_while_state_empty"] = int(any(0 < s_ <= first_rel for s_ in step_of_frame))
     # first frame read (prestep) in the middle of a file?
     pre = max([s for s in step_of_frame if s < 0], default=0)
     fpre = file_of_frame[frame_at_step[pre]]
@@ -278,6 +284,8 @@ def run_case(case: dict[str, Any], wd: Path) -> dict[str, Any]:
                 V.append(C.viol(f"step {s}: forcing.variables['v'] = {float(snap['variables']['v'][0]):.6f}, interpolation gives {wv0:.6f}", **desc))
                 break
             for name, vals in scal_vals.items():
+                if not len(snap["variables"][name]):
+                    continue  # nobody released yet
                 passed = [n for n in range(nfr) if step_of_frame[n] <= s]
                 n_latest = max(passed, key=lambda n: step_of_frame[n])
                 got = float(snap["variables"][name][0])
